@@ -221,8 +221,12 @@ func (s *Stream) grabFrame(n int) []byte {
 
 // sendMessageWithEnd sends a message with specified end flag
 func (s *Stream) sendMessageWithEnd(ctx context.Context, data []byte, end byte) error {
-	if len(data) > MaxMessageSize {
-		return fmt.Errorf("message too large: %d bytes (max %d)", len(data), MaxMessageSize)
+	// Bound the length that goes on the wire, not the plaintext: on an encrypting
+	// stream the frame grows by the 16-byte GCM tag (plus the 16-byte IV on the
+	// first frame), and ReceiveFrame/ReceiveFrameWithEnd reject a wire length
+	// above MaxMessageSize. Refuse here what the peer would refuse.
+	if wireSize := s.calculateEncryptedSize(len(data)); wireSize > MaxMessageSize {
+		return fmt.Errorf("message too large: %d bytes, %d on the wire (max %d)", len(data), wireSize, MaxMessageSize)
 	}
 
 	var frame []byte
